@@ -25,7 +25,7 @@ use crate::target::Target;
 use crate::world::{hex, Assets, Dk, Spend, World};
 
 #[derive(Clone, Debug)]
-enum Op {
+pub enum Op {
     Update(usize),
     AddSig(usize, usize),
     AddPre(usize, usize),
@@ -37,21 +37,21 @@ enum Op {
     Merge(usize),
 }
 
-struct InputPlan {
-    case: DescCase,
-    desc: Descriptor<Dk>,
-    target: Target,
-    legacy: bool,
+pub struct InputPlan {
+    pub case: DescCase,
+    pub desc: Descriptor<Dk>,
+    pub target: Target,
+    pub legacy: bool,
 }
 
-struct Setup {
-    inputs: Vec<InputPlan>,
-    tx: Transaction,
-    prevouts: Vec<TxOut>,
-    prev_txs: Vec<Option<Transaction>>,
+pub struct Setup {
+    pub inputs: Vec<InputPlan>,
+    pub tx: Transaction,
+    pub prevouts: Vec<TxOut>,
+    pub prev_txs: Vec<Option<Transaction>>,
 }
 
-fn build_setup(rng: &mut Rng, world: &World, tier: Tier) -> Option<Setup> {
+pub fn build_setup(rng: &mut Rng, world: &World, tier: Tier) -> Option<Setup> {
     let n = 1 + rng.below(4);
     let mut ccfg = case_cfg(tier);
     ccfg.max_nodes = ccfg.max_nodes.min(10);
@@ -128,7 +128,7 @@ fn build_setup(rng: &mut Rng, world: &World, tier: Tier) -> Option<Setup> {
     Some(Setup { inputs, tx, prevouts, prev_txs })
 }
 
-fn fresh_psbt(s: &Setup) -> Psbt {
+pub fn fresh_psbt(s: &Setup) -> Psbt {
     let mut psbt = Psbt::from_unsigned_tx(s.tx.clone()).expect("unsigned tx");
     for (i, ip) in s.inputs.iter().enumerate() {
         if ip.legacy {
@@ -142,14 +142,14 @@ fn fresh_psbt(s: &Setup) -> Psbt {
 
 /// Apply one operation; returns a description of the outcome for the checker.
 #[derive(Debug)]
-enum Outcome {
+pub enum Outcome {
     Ok,
     Err(Vec<Option<usize>>),
     Panic(String),
     Tx(Transaction),
 }
 
-fn apply(world: &World, s: &Setup, psbt: &mut Psbt, op: &Op) -> Outcome {
+pub fn apply(world: &World, s: &Setup, psbt: &mut Psbt, op: &Op) -> Outcome {
     match op {
         Op::Update(i) => {
             let d = &s.inputs[*i].desc;
